@@ -4,10 +4,12 @@
 -/
 import Driver.Token
 import Driver.Pod
+import Driver.Disc
+import Driver.Errs
 
 def dispatch (st : Unit) (line : String) : Unit × String :=
   let toks := (line.trimAscii.toString.splitOn " ").filter (· ≠ "")
-  match (Driver.Tok.handle toks <|> Driver.PodD.handle toks) with
+  match (Driver.Tok.handle toks <|> Driver.PodD.handle toks <|> Driver.DiscD.handle toks <|> Driver.ErrsD.handle toks) with
   | some s => (st, s)
   | none => (st, "bad-op")
 
